@@ -26,7 +26,9 @@ def run():
              f"of colors_conf=, global config, palette object, palette class, alternative palette object) = {sizes.get('grid')} two-step histories; (B) "
              f"{sizes.get('curated')} curated histories: a 12-step script per object and churns of <= 100 (500) "
              f"create/render/discard/gc rounds per enum object and route (2 (3) routes), plus the same number of rounds with a "
-             f"brand-new palette class per round (coloured, then no_color); (C) {sizes.get('random')} seeded random histories "
+             f"brand-new palette class per round (coloured, then no_color); and every rendering order of the members of 3 groups of tables built from another table's format object "
+             f"(fmt_obj=other.fmt, records of different widths; the reference is the member of a fresh, never rendered group); "
+             f"(C) {sizes.get('random')} seeded random histories "
              f"of 3..12 steps over 3 config slots and 3-4 objects each (random.Random(seed*7919+10)). "
              f"non-trivial = >= 2 configurations alive at different times (one discarded) and >= 1 object with an enum column "
              f"rendered",
